@@ -1132,6 +1132,11 @@ struct H {
             return c;
         });
     }
+    // coverage-guided mode: the bytes are the entropy
+    static bool from_fuzz(const uint8_t *d, size_t n, Case &c) {
+        c.bytes.assign(d, d + n);
+        return true;
+    }
     static std::string to_text(const Case &c) {
         pbt::KV     kv;
         std::string hex;
@@ -1205,4 +1210,4 @@ struct H {
 
 } // namespace
 
-int main(int argc, char **argv) { return pbt::run_main<H>(argc, argv); }
+PBT_MAIN(H)
